@@ -343,7 +343,9 @@ func (x *Exec) verifyFunc(fn *ssa.Function, c *FuncContract) (err error) {
 				}
 			}
 		}
-		x.obls = append(x.obls, &Obligation{Name: fmt.Sprintf("%s#cover:return@%d", x.unit, nret), Unit: x.unit, Kind: "cover", Label: "return", Hyps: o.st.pcList(), Goal: tTrue, Cover: true})
+		if x.coverBudget("return") {
+			x.obls = append(x.obls, &Obligation{Name: fmt.Sprintf("%s#cover:return@%d", x.unit, nret), Unit: x.unit, Kind: "cover", Label: "return", Hyps: o.st.pcList(), Goal: tTrue, Cover: true})
+		}
 	}
 	return nil
 }
@@ -431,7 +433,11 @@ func (x *Exec) dbAxioms(pkg *types.Package) []string {
 	st := &State{cells: map[*Cell]Value{}, heaps: map[string]string{}, wf: map[string]bool{}, held: map[string]string{}, ghost: map[string]Value{}, alloc: "alloc0"}
 	for round := 0; round < 3; round++ {
 		out = out[:0]
-		for _, a := range x.db.Axioms {
+		var visible []Clause
+		for _, pc := range x.pkgContracts() {
+			visible = append(visible, pc.Axioms...)
+		}
+		for _, a := range visible {
 			used := specCalls(a.E, nil)
 			relevant := false
 			for _, u := range used {
@@ -564,6 +570,133 @@ func (x *Exec) writeVCs(dir string, pkg *types.Package) ([]string, error) {
 }
 
 var _ = token.NoPos
+
+// batchKinds: automatic safety obligations.  The same program point is checked once per
+// path that reaches it; on a tree where the property holds all of them are valid, so they
+// are first asked together: one query "some path violates the check at this point".
+var batchKinds = map[string]bool{"nil": true, "idx": true, "slice": true, "div0": true, "mapnil": true, "makeneg": true, "assertT": true, "auto-frame": true, "pre": true}
+
+type vcBatch struct {
+	file    string
+	members []int // indexes into x.obls
+}
+
+// writeBatches groups the safety obligations of one program point (same kind and label)
+// into combined queries of at most batchMax members.  A batch that is unsatisfiable
+// discharges all its members; any other answer leaves them to their individual queries.
+func (x *Exec) writeBatches(dir string, files []string, pkg *types.Package) ([]vcBatch, error) {
+	const batchMax = 12
+	axioms := append(x.dbAxioms(pkg), x.globalAxioms()...)
+	var sb strings.Builder
+	sb.WriteString(prelude)
+	sb.WriteString(wrapMarkBegin + wrapDefs("A") + wrapMarkEnd)
+	for _, l := range x.d.order {
+		sb.WriteString(l)
+		sb.WriteByte('\n')
+	}
+	for _, a := range axioms {
+		sb.WriteString("(assert " + a + ")\n")
+	}
+	header := sb.String()
+	memo := map[string]string{}
+	ann := func(t string) string {
+		if os.Getenv("GOVC_NOPAT") != "" {
+			return t
+		}
+		return annotateQuantifiers(t, memo)
+	}
+	groups := map[string][]int{}
+	var order []string
+	for i, o := range x.obls {
+		if o.Cover || !batchKinds[o.Kind] || files[i] == "" {
+			continue
+		}
+		k := o.Kind + ":" + o.Label
+		if _, ok := groups[k]; !ok {
+			order = append(order, k)
+		}
+		groups[k] = append(groups[k], i)
+	}
+	var out []vcBatch
+	n := 0
+	for _, k := range order {
+		g := groups[k]
+		for len(g) > 0 {
+			m := g
+			if len(m) > batchMax {
+				m = g[:batchMax]
+			}
+			g = g[len(m):]
+			if len(m) < 2 {
+				continue
+			}
+			var b strings.Builder
+			b.WriteString("; batch " + x.unit + "#" + k + "\n")
+			b.WriteString(header)
+			for _, la := range x.lateAxioms {
+				if !x.d.seen[la.heap] {
+					continue
+				}
+				used := false
+				for _, i := range m {
+					o := x.obls[i]
+					if strings.Contains(o.Goal, la.heap) {
+						used = true
+					}
+					for _, h := range o.Hyps {
+						if used {
+							break
+						}
+						used = strings.Contains(h, la.heap)
+					}
+					if used {
+						break
+					}
+				}
+				if used {
+					b.WriteString("(assert " + la.term + ") ; wf\n")
+				}
+			}
+			// hypotheses common to all members stay top-level assertions
+			common := map[string]int{}
+			for _, i := range m {
+				seen := map[string]bool{}
+				for _, h := range x.obls[i].Hyps {
+					if !seen[h] {
+						seen[h] = true
+						common[h]++
+					}
+				}
+			}
+			done := map[string]bool{}
+			for _, h := range x.obls[m[0]].Hyps {
+				if common[h] == len(m) && !done[h] {
+					done[h] = true
+					b.WriteString("(assert " + ann(h) + ")\n")
+				}
+			}
+			b.WriteString("(assert (or")
+			for _, i := range m {
+				o := x.obls[i]
+				b.WriteString("\n (and")
+				for _, h := range o.Hyps {
+					if common[h] != len(m) {
+						b.WriteString(" " + ann(h))
+					}
+				}
+				b.WriteString(" (not " + ann(o.Goal) + "))")
+			}
+			b.WriteString("))\n(check-sat)\n")
+			f := filepath.Join(dir, fmt.Sprintf("batch%04d.smt2", n))
+			n++
+			if err := os.WriteFile(f, []byte(b.String()), 0o644); err != nil {
+				return nil, err
+			}
+			out = append(out, vcBatch{file: f, members: append([]int(nil), m...)})
+		}
+	}
+	return out, nil
+}
 
 // Probe is a term whose model value the replay needs (an input of the unit).
 type Probe struct {
